@@ -10,12 +10,12 @@ tname=$(grep -o "func Test[A-Za-z0-9_]*" $out/demo${i}_test.go | head -1 | sed '
 cd $wt || exit 9
 git checkout -q -- . ; git clean -fdq
 # 1. clean tree: demo passes
-cp $out/demo${i}_test.go $pkgdir/zz_demo_test.go
+cp $out/demo${i}_test.go $pkgdir/demo${i}_test.go
 go test -vet=off -count=1 -run "^${tname}\$" ./$pkgdir >/tmp/seed/$id.clean.log 2>&1; clean_rc=$?
 # 2. with the change: compiles, suite (minus TestLog) passes, demo fails
-git apply $out/patch${i}.diff || { echo "$id-$i: patch does not apply"; rm -f $pkgdir/zz_demo_test.go; exit 8; }
+git apply $out/patch${i}.diff || { echo "$id-$i: patch does not apply"; rm -f $pkgdir/demo${i}_test.go; exit 8; }
 go test -vet=off -count=1 -run "^${tname}\$" ./$pkgdir >/tmp/seed/$id.mut.log 2>&1; mut_rc=$?
-rm -f $pkgdir/zz_demo_test.go
+rm -f $pkgdir/demo${i}_test.go
 go test -vet=off -count=1 ./... >/tmp/seed/$id.suite.log 2>&1
 fails=$(grep -E "^--- FAIL" /tmp/seed/$id.suite.log | grep -v "TestLog " | wc -l)
 build_ok=$(grep -c "build failed\|cannot\|undefined" /tmp/seed/$id.suite.log)
@@ -28,7 +28,7 @@ cp $out/patch${i}.diff $d/patch.diff; cp $out/demo${i}_test.go $d/demo_test.go; 
 # 4. run the check against it in /repo
 cd /repo && git apply $d/patch.diff || { echo "$id-$i: patch does not apply to /repo"; exit 6; }
 cd /verif && timeout 3000 ./vcheck $id --tier $tier -timeout 1200s > $d/check.$tier.log 2>&1; rc=$?
-cd /repo && git checkout -q -- .
+cd /repo && (git apply -R $d/patch.diff 2>/dev/null || git checkout -q -- .); git clean -fdq -e logs
 caught=no; [ $rc -eq 1 ] && caught=yes; [ $rc -eq 2 ] && caught=inconclusive
 viol=$(grep -m1 "violation:" $d/check.$tier.log | sed 's/^ *//' | cut -c1-160)
 python3 - "$id" "$i" "$tier" "$rc" "$caught" "$viol" <<'PY'
